@@ -1,11 +1,16 @@
 // C27 driver: runs the REAL tfel::material::BoundsCheckBase / BoundsCheck<N> functions of /repo on cases read from
 // stdin, captures std::cerr (warnings) and OutOfBoundsException, prints what was observed.
-// case line:  id type N kind lb ub policy nvals v0 v1 ...
-//   type: b = BoundsCheckBase on double, d = BoundsCheck<N> on double, q = BoundsCheck<N> on qt<Stress,double>,
-//         t = BoundsCheck<N> on stensor<N,double>, u = BoundsCheck<N> on stensor<N,qt<Stress,double>>
+// case line:  id type fp N kind lb ub policy nvals v0 v1 ...
+//   type: b = BoundsCheckBase on F, d = BoundsCheck<N> on F, q = BoundsCheck<N> on qt<Stress,F>,
+//         t = BoundsCheck<N> on stensor<N,F>, u = BoundsCheck<N> on stensor<N,qt<Stress,F>>
+//   fp:   d = double, f = float, l = long double  (the floating-point type F)
 //   kind: L U B ; policy: W S N or D (argument omitted: the default of the C++ signature)
+//   values (and bounds): `x` or `x:k` where x is a C99 hexadecimal / decimal literal (nan, inf) exactly representable
+//   in F and k in {-1,0,1}: the value is x moved k times by std::nextafter IN THE TYPE F (towards -inf / +inf)
+#include <cmath>
 #include <cstdlib>
 #include <iostream>
+#include <limits>
 #include <sstream>
 #include <string>
 #include <vector>
@@ -15,7 +20,19 @@
 #include "TFEL/Material/MaterialException.hxx"
 
 using namespace tfel::material;
-using Stress = tfel::math::qt<tfel::math::unit::Stress, double>;
+
+template <typename F>
+static F parse(const std::string& s) {
+  const auto p = s.find(':');
+  const auto base = static_cast<F>(std::strtold(s.substr(0, p).c_str(), nullptr));
+  if (p == std::string::npos) return base;
+  const int k = std::atoi(s.substr(p + 1).c_str());
+  F v = base;
+  for (int i = 0; i < (k < 0 ? -k : k); ++i) {
+    v = std::nextafter(v, k < 0 ? -std::numeric_limits<F>::infinity() : std::numeric_limits<F>::infinity());
+  }
+  return v;
+}
 
 template <typename BC, typename V, typename B>
 static void call(const std::string& n, const V& v, char kind, B lb, B ub, char pol) {
@@ -29,8 +46,9 @@ static void call(const std::string& n, const V& v, char kind, B lb, B ub, char p
   }
 }
 
-template <unsigned short N>
-static void dispatch(char type, const std::vector<double>& vals, char kind, double lb, double ub, char pol) {
+template <unsigned short N, typename F>
+static void dispatch(char type, const std::vector<F>& vals, char kind, F lb, F ub, char pol) {
+  using Stress = tfel::math::qt<tfel::math::unit::Stress, F>;
   const std::string n = "x";
   using BC = BoundsCheck<N>;
   if (type == 'd') {
@@ -38,7 +56,7 @@ static void dispatch(char type, const std::vector<double>& vals, char kind, doub
   } else if (type == 'q') {
     call<BC>(n, Stress(vals.at(0)), kind, lb, ub, pol);
   } else if (type == 't') {
-    tfel::math::stensor<N, double> s;
+    tfel::math::stensor<N, F> s;
     for (unsigned short i = 0; i != s.size(); ++i) s[i] = vals.at(i);
     call<BC>(n, s, kind, lb, ub, pol);
   } else if (type == 'u') {
@@ -50,34 +68,48 @@ static void dispatch(char type, const std::vector<double>& vals, char kind, doub
   }
 }
 
+template <typename F>
+static void run(char type, int N, char kind, const std::string& slb, const std::string& sub, char pol,
+                const std::vector<std::string>& svals) {
+  const F lb = parse<F>(slb), ub = parse<F>(sub);
+  std::vector<F> vals;
+  for (const auto& s : svals) vals.push_back(parse<F>(s));
+  if (type == 'b') {
+    call<BoundsCheckBase>(std::string("x"), vals.at(0), kind, lb, ub, pol);
+  } else if (N == 1) {
+    dispatch<1, F>(type, vals, kind, lb, ub, pol);
+  } else if (N == 2) {
+    dispatch<2, F>(type, vals, kind, lb, ub, pol);
+  } else {
+    dispatch<3, F>(type, vals, kind, lb, ub, pol);
+  }
+}
+
 int main() {
   std::string line;
   while (std::getline(std::cin, line)) {
     if (line.empty()) continue;
     std::istringstream is(line);
     std::string id, slb, sub;
-    char type, kind, pol;
+    char type, fp, kind, pol;
     int N, nv;
-    is >> id >> type >> N >> kind >> slb >> sub >> pol >> nv;
-    const double lb = std::strtod(slb.c_str(), nullptr), ub = std::strtod(sub.c_str(), nullptr);
-    std::vector<double> vals;
+    is >> id >> type >> fp >> N >> kind >> slb >> sub >> pol >> nv;
+    std::vector<std::string> svals;
     for (int i = 0; i < nv; ++i) {
       std::string s;
       is >> s;
-      vals.push_back(std::strtod(s.c_str(), nullptr));
+      svals.push_back(s);
     }
     std::ostringstream captured;
     auto* old = std::cerr.rdbuf(captured.rdbuf());
     std::string exc, other;
     try {
-      if (type == 'b') {
-        call<BoundsCheckBase>(std::string("x"), vals.at(0), kind, lb, ub, pol);
-      } else if (N == 1) {
-        dispatch<1>(type, vals, kind, lb, ub, pol);
-      } else if (N == 2) {
-        dispatch<2>(type, vals, kind, lb, ub, pol);
+      if (fp == 'f') {
+        run<float>(type, N, kind, slb, sub, pol, svals);
+      } else if (fp == 'l') {
+        run<long double>(type, N, kind, slb, sub, pol, svals);
       } else {
-        dispatch<3>(type, vals, kind, lb, ub, pol);
+        run<double>(type, N, kind, slb, sub, pol, svals);
       }
     } catch (OutOfBoundsException& e) {
       exc = e.what();
